@@ -181,3 +181,39 @@ package mocks
 //@   loop 0: invariant forall k :: 0 <= k && k < $i ==> msgs[k].Offset == acq(sp.lastOffset) + k + 1
 //@   loop 0: invariant forall k :: 0 <= k && k < len(expectations) ==> expectations[k] != nil
 //@   loop 0: invariant len(expectations) == len(msgs)
+
+// ---------------------------------------------------------------------------------------------
+// Consumer mock: metadata answers and registration of expectations (C20).
+
+// Partitions answers from the scripted metadata: a mock without metadata reports the call to the test and fails,
+// an unknown topic is ErrUnknownTopicOrPartition, a known one yields exactly the scripted list.
+//@ func (c *Consumer) Partitions(topic) props C20
+//@   returns r, err
+//@   callsite ErrorReporter.Errorf: effect c.reported == old(c.reported) + 1
+//@   callsite ErrorReporter.Errorf: modifies c.reported
+//@   ensures[no_metadata_reported] acq(isnil(c.metadata)) ==> err == ErrOutOfBrokers && c.reported == old(c.reported) + 1
+//@   ensures[unknown_topic] acq(!isnil(c.metadata) && isnil(c.metadata[topic])) ==> err == ErrUnknownTopicOrPartition && c.reported == old(c.reported)
+//@   ensures[scripted_list] acq(!isnil(c.metadata) && !isnil(c.metadata[topic])) ==> err == nil && r == acq(c.metadata[topic]) && c.reported == old(c.reported)
+
+// Topics without metadata is reported to the test and fails.
+//@ func (c *Consumer) Topics() props C20
+//@   returns r, err
+//@   callsite ErrorReporter.Errorf: effect c.reported == old(c.reported) + 1
+//@   callsite ErrorReporter.Errorf: modifies c.reported
+//@   ensures[no_metadata_reported] acq(isnil(c.metadata)) ==> err == ErrOutOfBrokers && c.reported == old(c.reported) + 1
+//@   ensures[with_metadata_quiet] acq(!isnil(c.metadata)) ==> err == nil && c.reported == old(c.reported)
+//@   nosafety
+
+// SetTopicMetadata installs exactly the given script.
+//@ func (c *Consumer) SetTopicMetadata(metadata) props C20
+//@   ensures[installed] c.metadata == metadata
+
+// ExpectConsumePartition registers the partition once: the first call creates the mock with the given topic,
+// partition and start offset (not yet consumed); every call returns the registered mock.
+//@ func (c *Consumer) ExpectConsumePartition(topic, partition, offset) props C20
+//@   returns r
+//@   requires c.partitionConsumers != nil && c.config != nil
+//@   ensures[registered] r != nil && haskey(c.partitionConsumers, topic) && c.partitionConsumers[topic] != nil && haskey(c.partitionConsumers[topic], partition) && c.partitionConsumers[topic][partition] == r
+//@   ensures[first_registration_scripted] acq(c.partitionConsumers[topic] == nil || c.partitionConsumers[topic][partition] == nil) ==> r.topic == topic && r.partition == partition && r.offset == offset && !r.consumed
+//@   ensures[registered_once] acq(c.partitionConsumers[topic] != nil && c.partitionConsumers[topic][partition] != nil) ==> r == acq(c.partitionConsumers[topic][partition])
+//@   nosafety
